@@ -150,9 +150,14 @@ def one_case(c, rng, tmp):
             "resources": resources, "attrs": attrs, "t_source": t_source, "shuffle": shuffle,
             "var_names": var_names, "var_dims": repr(var_dims)}
     extra = {}
+    pool = None
     if rng.random() < 0.06:
         extra["parallel"] = True
         extra["num_workers"] = 2
+    elif rng.random() < 0.06:
+        import concurrent.futures as cf
+        pool = cf.ThreadPoolExecutor(2)
+        extra["executor"] = pool
     combos = sw.combos_arg(rng) if sw.combos else None
     cases_t = [tuple(cc) for cc in sw.cases]
     # a single case argument may be given as bare values (also strings) and as a bare name
@@ -205,7 +210,11 @@ def one_case(c, rng, tmp):
             else:
                 out = runner.run_combos(combos, shuffle=shuffle, to_df=to_df, verbosity=0, **extra)
     except Exception as e:  # noqa
+        if pool is not None:
+            pool.shutdown()
         return desc, {"error": f"{type(e).__name__}: {str(e)[:200]}"}, None, sw
+    if pool is not None:
+        pool.shutdown()
     modified = {k: v for k, v in (("constants", constants), ("resources", resources), ("attrs", attrs))
                 if v != given[k]}
     constants, resources, attrs = given["constants"], given["resources"], given["attrs"]
